@@ -43,6 +43,9 @@ def run(ctx):
                 c20.rule_cont(ctx, M, u)
                 c01.rule_rearm(ctx, u)
         rule_who(ctx, M, units)
+        # "an input that always has an item is visited again" rests on the bit discipline of the merges: a cleared bit is
+        # followed by a poll, a yielding input is re-armed, the scan is not cut short
+        c01.live_premises(ctx, M, units, "C17.REARM")
         na = 1 if cfg == "core" else 2
         ctx.floor("C17.ROT", cfg, 3)
         ctx.floor("C17.USE", cfg, 12 + na)
